@@ -96,6 +96,7 @@ def loop_report(ctx, b, ev, res):
         body = set()
         for u in latches:
             body |= b.natural_loop((u, h))
+        body &= set(b.reachable)      # blocks that inlining / jump threading left without predecessors are not part of any cycle
         # loop-carried locals: those that are phi at the header
         env_h = res.env_in.get(h, {})
         carried = set()
